@@ -87,6 +87,8 @@ class C07(Check):
             raise InvalidScenario("front end rejected the namespace: %s" % ex)
         try:
             res = node.uni.res
+            from ..worlds.realcanon import hostile_client
+            out.stats["client_list_mutations"] += hostile_client(list(node.types.values()))
             for key, si, real, sec in node.sections():
                 feats = type_features(res, sec)
                 for hdr in ([False, True] if not sec.sealed else [False]):
@@ -218,12 +220,42 @@ class C07(Check):
                     out.fail("C07.isolation", "%s: the object returned for a bytearray changed when the bytearray was modified afterwards" % where, "isolation:aliases-input")
             except Exception as ex:  # noqa
                 out.fail("C07.isolation", "%s: bytearray input raised %s" % (where, type(ex).__name__), "isolation:bytearray-raised")
+        if got[0] == "ok" and n and (n + data[0]) % 3 == 1:
+            # every call returns a value of its own: what the caller does to one result must not show up in the next
+            try:
+                o1 = pydsdl.deserialize(real, data, with_delimiter_header=hdr) if hdr else pydsdl.deserialize(real, data)
+                _scribble(o1)
+                o2 = pydsdl.deserialize(real, data, with_delimiter_header=hdr) if hdr else pydsdl.deserialize(real, data)
+                if R.norm(o2) != got[1]:
+                    out.fail("C07.isolation", "%s: after the caller modified the object returned by an earlier call in place, the same call returns %r" % (where, o2), "isolation:result-shared")
+            except Exception as ex:  # noqa
+                out.fail("C07.isolation", "%s: repeated call raised %s" % (where, type(ex).__name__), "isolation:repeat-raised")
         for nm, buf in alts:
             alt = self._decode_real(pydsdl, real, buf, hdr)
             out.stats["buffer_form:" + nm] += 1
             if alt != got:
                 out.fail("C07.isolation", "%s: result depends on the buffer object / its neighbours: bytes -> %r, %s -> %r" % (where, got, nm, alt), "isolation:" + nm.split("-")[0])
         return got
+
+
+def _scribble(o, depth: int = 0) -> None:
+    """In-place modification of everything mutable inside a returned object (lists grow, dict values change, keys are added)."""
+    if depth > 6:
+        return
+    if isinstance(o, dict):
+        for k in list(o.keys()):
+            v = o[k]
+            if isinstance(v, (dict, list)):
+                _scribble(v, depth + 1)
+            else:
+                o[k] = 12345 if not isinstance(v, (str, bytes)) else v
+        o["__scribbled__"] = True
+    elif isinstance(o, list):
+        for v in o:
+            if isinstance(v, (dict, list)):
+                _scribble(v, depth + 1)
+        o.append(1000)
+        o.reverse()
 
 
 CHECK = C07()
